@@ -14,10 +14,29 @@ def run(ctx):
         ctx.leanchecker(["AvoVerif.Props.C03", "AvoVerif.Props.C03Pipeline"])
     nt = lambda req, resp: req.startswith("accept-bind") and not req.endswith("=> 0")
     n = 2500 if ctx.tier == "quick" else 60000
-    ctx.differential("c01", n, nontrivial=nt, driver="drv_c01")
-    ctx.coverage["rule"] = ("same generated functions as C01 (incl. ones exceeding 15 GP / 32 vector / 7 mask registers and 8H-heavy ones); "
-                            "acceptor accept-bind: every operand register of the bound function is physical, an author-chosen physical "
-                            "register is unchanged, every occurrence of a virtual is replaced by the view of ONE physical id of the same "
-                            "kind with the same mask, not Restricted (SP, K0), 8H only on index 0..3; exact comparison of the outcome "
-                            "class (ok / failed / nonphysical / highbyte) with the model; non-trivial = function with virtual registers")
-    ctx.assumptions += ["Gen.regs is the register table reported by the compiled reg package on this run"]
+    if ctx.differential("c01", n, nontrivial=nt, driver="drv_c01") is not None:
+        c01.floors(ctx, "c01", {"functions": n * 9 // 10, "outcome:ok": n // 2, "bound_functions": n // 2,
+                                "bound_input_output_pairs": 5 * n, "compile:ok": n // 6, "outcome:err_nonphysical": n // 200,
+                                "outcome:err_highbyte": n // 200})
+        c01.ceilings(ctx, "c01", {"cfg_rejected": n // 50, "liveness_error": 0})
+        c01.exact_model_info(ctx)
+    ctx.coverage["rule"] = (
+        "same generated functions as C01 (incl. ones exceeding 15 GP / 32 vector / 7 mask registers, 8H-heavy ones, gather/scatter forms "
+        "with vector index registers, four-operand forms). accept-bind (sound: theorem checkBind_sound ⇒ statement BoundOK ∧ Unreserved): "
+        "every register found after BindRegisters in the OPERANDS, the declared INPUTS and the declared OUTPUTS of every instruction — "
+        "enumerated by the harness's own traversal of the operand values (register operands; base and index of memory operands), not by "
+        "Instruction.Registers()/operand.Registers — is physical; an author-chosen or implicit physical register is unchanged; every "
+        "occurrence of a virtual is the view of the ONE physical id the allocation assigns to it, same mask (8L stays 8L, 8H stays 8H), "
+        "same class as the virtual, a row of the regenerated register file that is not Restricted, 8H only on index 0..3. accept-regs: "
+        "Instruction.Registers() (what AllocateRegisters and VerifyAllocation look at) is exactly that traversal. accept-enc: no high-byte "
+        "register in an instruction that needs REX after allocation. 'An error instead of emitting code': an `ok` outcome is judged by the "
+        "acceptors (so 'ok with an invalid assignment' is a violation); an error outcome is always acceptable to the property, WHICH error "
+        "is not compared. The exact model of avo's greedy allocator is compared on an informational stream only (colour choice is free). "
+        "non-trivial = bound function with virtual registers")
+    ctx.assumptions += [
+        "Gen.regs is the register table reported by the compiled reg package on this run",
+        "which GP index is the stack pointer (4) and which opmask is K0 (0), and which names those rows print as, is the hardware numbering verified by C20, not here",
+        "distinct virtual registers of one function have distinct ids: reg.Collection hands out 16-bit indices that wrap after 65 536 registers of a kind (finding F13 of C20); beyond that two virtuals are one register to every pass",
+        "completeness of the allocator (that it finds an assignment whenever one exists) is not part of the property and not checked; a floor on the number of successfully bound functions guards against a pipeline that always fails",
+    ]
+    ctx.trusted += ["the harness's traversal of operand values (c01OpRegs: reg.Register, operand.Mem{Base,Index}) is the ground truth for 'the registers of an instruction'"]
